@@ -261,6 +261,9 @@ class Exec(Ops):
     mg = self.spec.module_globals.get(name)
     if isinstance(mg, (Sort, C.SpecFn, UFn)):
       return mg
+    for v in self.spec.module_globals.values():
+      if isinstance(v, UFn) and v.name == name:
+        return v
     raise KeyError(name)
 
   # ---- expressions ---------------------------------------------------------------------
@@ -526,6 +529,8 @@ class Exec(Ops):
     hint = self.type_hint(n)
     if hint is None:
       raise OutsideSubset(f'dict literal without a sort hint (line {n.lineno})')
+    if getattr(hint, 'from_dict_literal', None):
+      return hint.from_dict_literal(self, [(self.eval(k, env), self.eval(v, env)) for k, v in zip(n.keys, n.values)])
     m = self.empty_map(hint)
     for k, v in zip(n.keys, n.values):
       if k is None:
